@@ -364,7 +364,9 @@ def e2e(chk, rng):
                 chk.violation("failing-input",
                               {"what": "two runs on the same project and options differ in a way no recorded "
                                        "finding explains", "run": label, "seeds": [s0, seed], "options": o,
-                               "flags": meta, "first_difference": detail, "explained_by": why, "files": files},
+                               "reference_options": opts, "stale": stale, "flags": meta,
+                               "applicable_findings": sorted(applicable(meta, o, same_seed)),
+                               "first_difference": detail, "explained_by": why, "files": files},
                               True)
             else:
                 for k in why:
@@ -486,12 +488,21 @@ def replay(chk, rep):
         print("problems:", problems)
         res = chk.coq_judge(IMPORTS, CASE_T, "judge", [term]) if term else None
         print("judge code:", res, "(bit0 model!=impl, bit1 runs disagree, >>2 region: 1 = names clash)")
-        return 1 if res or problems else 0
+        code = (res or {}).get(0, 0)
+        bad = res is None or bool(problems) or bool(code & 1) or (bool(code & 2) and code >> 2 == 0)
+        return 1 if bad else 0
     seeds = rep.get("seeds") or [1, 2]
-    trees = [R.subprocess_run(files, opts, s) for s in seeds]
-    cl = R.classify(mask(trees[0][2]), mask(trees[1][2]), set(rep.get("explained_by") or []))
-    print("return codes:", [t[0] for t in trees], "difference:", cl)
-    return 1 if cl is not None and cl[0] is None else 0
+    stale = rep.get("stale")
+    if stale == "other":
+        stale = R.subprocess_run(P.other_project(None), {}, 1)[2]
+    with F.Work() as w:
+        pd = R.ProjectDir(w.root, "p", files)
+        ref = pd.run(rep.get("reference_options") or opts, seeds[0])
+        oth = pd.run(opts, seeds[1], stale=stale)
+    cl = R.classify(mask(ref[2], opts), mask(oth[2], opts), set(rep.get("applicable_findings") or []))
+    print("return codes:", ref[0], oth[0])
+    print("difference:", "none" if cl is None else cl)
+    return 1 if (cl is not None and cl[0] is None) or ref[0] != oth[0] else 0
 
 
 def finish(chk):
